@@ -96,6 +96,32 @@ def r1_path_spelling(rep, src):
             rep.fail('C07.R1', g.site, 'routes through ' + via, '%s does not go through %s' % (mname, via), where=g.where)
 
 
+def _build_deb(src, names):
+    """interpret DebFile.__init__ on an archive with these member names -> ('ok', {part: member}) / ('raise', exc)"""
+    from .. import heap as H
+    mod = src.mod(M)
+    f = src.func(M + ':DebFile.__init__')
+    heap = H.Heap(mod, hooks={'ArFile.__init__': lambda it, args, kw: None, '.getnames': lambda it, args, kw: it.h.new_list(list(names)),
+                              '.getmember': lambda it, args, kw: it.h.alloc('ArMember', {'name': args[1]}), '.read': lambda it, args, kw: '2.0\n', '.close': lambda it, args, kw: None,
+                              'DebControl': lambda it, args, kw: it.h.alloc('DebControl', {'member': args[0]}),
+                              'DebData': lambda it, args, kw: it.h.alloc('DebData', {'member': args[0]})})
+    heap.symbolic_strings = True
+    me = heap.alloc('DebFile', {}, name='@deb')
+    it = H.Interp(heap)
+    try:
+        it.call(H.Closure(f.node, {}, me, f.cls), [None, 'r', None])
+    except H.Raised as x:
+        return ('raise', x.exc)
+    parts = heap.objs[me.name].get('_DebFile__parts')
+    out = {}
+    if parts is not None:
+        for k, v in heap.objs[parts.name]['entries']:
+            o = heap.objs[v.name]
+            mem = o.get('member')
+            out[k] = (o['__class__'], heap.objs[mem.name]['name'] if mem is not None else None)
+    return ('ok', out)
+
+
 def r2_part_discovery(rep, src):
     f = src.func(M + ':DebFile.__init__')
     rep.saw_func(f)
@@ -114,26 +140,7 @@ def r2_part_discovery(rep, src):
         return
 
     def build(names):
-        """interpret DebFile.__init__ on an archive with these member names -> ('ok', {part: member}) / ('raise', exc)"""
-        heap = H.Heap(mod, hooks={'ArFile.__init__': lambda it, args, kw: None, '.getnames': lambda it, args, kw: it.h.new_list(list(names)),
-                                  '.getmember': lambda it, args, kw: it.h.alloc('ArMember', {'name': args[1]}), '.read': lambda it, args, kw: '2.0\n', '.close': lambda it, args, kw: None,
-                                  'DebControl': lambda it, args, kw: it.h.alloc('DebControl', {'member': args[0]}),
-                                  'DebData': lambda it, args, kw: it.h.alloc('DebData', {'member': args[0]})})
-        heap.symbolic_strings = True
-        me = heap.alloc('DebFile', {}, name='@deb')
-        it = H.Interp(heap)
-        try:
-            it.call(H.Closure(f.node, {}, me, f.cls), [None, 'r', None])
-        except H.Raised as x:
-            return ('raise', x.exc)
-        parts = heap.objs[me.name].get('_DebFile__parts')
-        out = {}
-        if parts is not None:
-            for k, v in heap.objs[parts.name]['entries']:
-                o = heap.objs[v.name]
-                mem = o.get('member')
-                out[k] = (o['__class__'], heap.objs[mem.name]['name'] if mem is not None else None)
-        return ('ok', out)
+        return _build_deb(src, names)
     n_cases = 0
     bad = None
     for part, other, cls_ in ((CTRL, DATA + '.gz', 'DebControl'), (DATA, CTRL + '.gz', 'DebData')):
@@ -198,32 +205,24 @@ def r2_part_discovery(rep, src):
 
 
 def r3_init(rep, src):
+    """DebFile.__init__ interpreted on archive layouts: a package without debian-binary is refused with DebError whatever else
+    it holds; the control and data parts are wrapped in their own classes around their own members"""
     f = src.func(M + ':DebFile.__init__')
-    g = cfg.CFG(f.node)
-    info = [n for n in g.nodes if n.kind == 'test' and norm(n.ast) in ('INFO_PART not in actual_names',)]
-    stores = [n for n in g.stmts() if n.kind == 'stmt' and isinstance(n.ast, ast.Assign) and isinstance(n.ast.targets[0], ast.Subscript)
-              and norm(n.ast.targets[0].value) == 'self.__parts']
-    ok = False
-    if info and stores:
-        t = info[0]
-        raises = [d for d, lab in g.succ[t.id] if lab is True and g.nodes[d].kind == 'raise' and 'DebError' in norm(g.nodes[d].ast)]
-        ok = bool(raises) and all(g.dominates(t.id, s.id) for s in stores)
-    if ok:
-        rep.ok('C07.R3', f.site, 'debian-binary is required', 'INFO_PART test (DebError) dominates part construction')
+    consts = src.mod(M).consts.get('', {})
+    CTRL, DATA, INFO = consts.get('CTRL_PART'), consts.get('DATA_PART'), consts.get('INFO_PART')
+    layouts = [[CTRL + '.gz', DATA + '.xz'], [CTRL + '.gz'], [DATA + '.gz'], [], ['_gpgorigin', CTRL, DATA]]
+    bad = [l for l in layouts if _build_deb(src, l) != ('raise', 'DebError')]
+    if not bad:
+        rep.ok('C07.R3', f.site, 'debian-binary is required', '%d layouts without %s → DebError' % (len(layouts), INFO))
     else:
-        rep.fail('C07.R3', f.site, 'debian-binary is required', 'an archive without debian-binary is not rejected with DebError before the parts are built', where=f.where)
-    want = {'CTRL_PART': ('DebControl', 'CTRL_PART'), 'DATA_PART': ('DebData', 'DATA_PART')}
-    got = {}
-    for s in stores:
-        key = norm(s.ast.targets[0].slice)
-        v = s.ast.value
-        if isinstance(v, ast.Call) and len(v.args) == 1 and isinstance(v.args[0], ast.Call) and norm(v.args[0].func) == 'self.getmember' \
-                and isinstance(v.args[0].args[0], ast.Call) and norm(v.args[0].args[0].func) == 'compressed_part_name':
-            got[key] = (norm(v.func), norm(v.args[0].args[0].args[0]))
-    if got == want:
+        rep.fail('C07.R3', f.site, 'debian-binary is required', 'an archive without debian-binary is not rejected with DebError before the parts are built '
+                 '(members %r → %r)' % (bad[0], _build_deb(src, bad[0])), where=f.where)
+    res = _build_deb(src, [INFO, CTRL + '.xz', DATA + '.gz'])
+    want = {CTRL: ('DebControl', CTRL + '.xz'), DATA: ('DebData', DATA + '.gz')}
+    if res == ('ok', want):
         rep.ok('C07.R3', f.site, 'control/data parts wired to their members', 'DebControl(control.tar*), DebData(data.tar*)')
     else:
-        rep.fail('C07.R3', f.site, 'control/data parts wired to their members', 'parts are built as %r' % got, where=f.where)
+        rep.fail('C07.R3', f.site, 'control/data parts wired to their members', 'parts are built as %r' % (res[1],), where=f.where)
     for r in [x for x in walk_no_nested(f.node) if isinstance(x, ast.Raise)]:
         if 'DebError' not in norm(r):
             rep.fail('C07.R3', f.site, 'raise ' + norm(r)[:40], 'a malformed package raises something other than DebError', where=f.where)
